@@ -120,8 +120,16 @@ def _one(it, fn, FA, na, nb, ncon, axes_a, axes_b, preserve):
             return "SCALAR"
         raise PyRaise("KeyError", "()")
 
+    def c_get_method(it_, args, k):
+        # dict.get((), default) on the block dict: same read, never raises
+        if not state["c_synced"]:
+            state["read_before_sync"] = True
+        if it_.ctx.branch(has_scalar, "scalar"):
+            return "SCALAR"
+        return args[1] if len(args) > 1 else None
+
     c.fields["phase_sync"] = BuiltinVal("c.phase_sync", c_sync)
-    c.fields["blocks"] = SymObj(None, {"$getitem": c_get}, tag="c_blocks")
+    c.fields["blocks"] = SymObj(None, {"$getitem": c_get, "get": BuiltinVal("c.blocks.get", c_get_method)}, tag="c_blocks")
     tda = []
 
     def tdot(it_, args, k):
